@@ -81,8 +81,11 @@ func (s *Service) checkContexts(clientCtx, upstreamCtx context.Context, readDead
 }
 
 // processStreamData reads from upstream and writes to client
-func (s *Service) processStreamData(resp *http.Response, buffer []byte, state *streamState, w http.ResponseWriter, isStreaming bool, rc *http.ResponseController, rlog logger.StyledLogger) error {
+func (s *Service) processStreamData(resp *http.Response, buffer []byte, state *streamState, w http.ResponseWriter, isStreaming bool, rc *http.ResponseController, rlog logger.StyledLogger, afterRead func()) error {
 	n, err := resp.Body.Read(buffer)
+	if afterRead != nil {
+		afterRead()
+	}
 	if n > 0 {
 		// Only keep last chunk when we hit EOF (for metrics extraction)
 		// OLLA-221: large allocations per s tream adds GC Pressure over time
